@@ -15,7 +15,7 @@ c=m.get('checks_run',{})
 ids=[k for k,v in c.items() if str(v).lower().startswith('detected')] or [m.get('property')]
 print(' '.join(sorted(set(ids))))" 2>/dev/null)
   [ -z "$ids" ] && ids=${n:0:3}
-  git -C /repo apply $d/patch.diff 2>/dev/null || { echo "$n: PATCH DOES NOT APPLY"; git -C /repo checkout -- .; continue; }
+  git -C /repo apply /verif/$d/patch.diff 2>/dev/null || { echo "$n: PATCH DOES NOT APPLY"; git -C /repo checkout -- .; continue; }
   for id in $ids; do
     out=$(bin/check $id --tier quick 2>&1); rc=$?
     if [ $rc -ne 0 ]; then
